@@ -85,6 +85,8 @@ package fri
 //@   ensures seg_eq(res.Batches[0].Values, len(c.Constants) + len(c.PlonkSigmas) + len(c.Wires) + len(c.PlonkZs) + len(c.PartialProducts), c.QuotientPolys)
 //@   ensures len(res.Batches[1].Values) == len(c.PlonkZsNext) && seg_eq(res.Batches[1].Values, 0, c.PlonkZsNext)
 //@   ensures implies(canonQEs(c.Constants) && canonQEs(c.PlonkSigmas) && canonQEs(c.Wires) && canonQEs(c.PlonkZs) && canonQEs(c.PlonkZsNext) && canonQEs(c.PartialProducts) && canonQEs(c.QuotientPolys), canonOpeningBatches(res))
+//@   complete_requires canonQEs(c.Constants) && canonQEs(c.PlonkSigmas) && canonQEs(c.Wires) && canonQEs(c.PlonkZs) && canonQEs(c.PlonkZsNext) && canonQEs(c.PartialProducts) && canonQEs(c.QuotientPolys)
+//@   complete_ensures canonOpeningBatches(res)
 
 // ------------------------------------------------------------------ subgroup points
 // x = g * w^bitreverse(index): the exponentiation consumes the index bits from the most significant one.
@@ -140,9 +142,8 @@ package fri
 // ------------------------------------------------------------------ query rounds (structure, Merkle checks, bounds; the algebraic
 // content of friCombineInitial / computeEvaluation is not specified functionally here)
 //@ def canonQEs(l) = forall(k, 0, len(l), canonQE(l[k]))
-//@ def polys_in_range(instance, proof) = forall(b, 0, len(instance.Batches), forall(k, 0, len(instance.Batches[b].Polynomials),
-//@        instance.Batches[b].Polynomials[k].OracleIndex < len(proof.EvalsProofs) &&
-//@        instance.Batches[b].Polynomials[k].PolynomialInfo < len(proof.EvalsProofs[instance.Batches[b].Polynomials[k].OracleIndex].Elements)))
+//@ def pir(l, proof) = forall(k, 0, len(l), l[k].OracleIndex < len(proof.EvalsProofs) && l[k].PolynomialInfo < len(proof.EvalsProofs[l[k].OracleIndex].Elements))
+//@ def polys_in_range(instance, proof) = pir(instance.Batches[0].Polynomials, proof) && pir(instance.Batches[1].Polynomials, proof)
 
 // friCombineInitial (plonky2 fri_combine_initial) for the two opening batches (zeta, g*zeta) of a plonky2 instance:
 //   sum_b = alpha^{n_b} * sum_{b-1} + (reduce(evals_b, alpha) - reduced_openings_b) / (x - point_b),  sum_{-1} = 0,
@@ -199,7 +200,8 @@ package fri
 //@ recdef bw_prod(xs []QE, i int, j int) QE = ite(j <= 0, tuple(1, 0), ite(j - 1 == i, bw_prod(xs, i, j - 1), qe_submulo(xs[i], xs[j-1], bw_prod(xs, i, j - 1))))
 //@ func (f *Chip) computeEvaluation(x gl.Variable, xIndexWithinCosetBits []frontend.Variable, arityBits uint64, evals []gl.QuadraticExtensionVariable, beta gl.QuadraticExtensionVariable) (res gl.QuadraticExtensionVariable)
 //@   props C13 C05 C20
-//@   circuit sound-only
+//@   circuit
+//@   flag honest-callees-assumed
 //@   requires chipok(f.gl) && canon(x) && canonQE(beta) && canonQEs(evals)
 //@   requires arityBits == 4 && len(evals) == 16 && len(xIndexWithinCosetBits) == 4 && forall(k, 0, 4, isbit(xIndexWithinCosetBits[k]))
 //@   ghost g goldilocks.Element
@@ -220,7 +222,14 @@ package fri
 
 //@ func (f *Chip) verifyQueryRound(instance InstanceInfo, challenges *variables.FriChallenges, precomputedReducedEval []gl.QuadraticExtensionVariable, initialMerkleCaps []variables.FriMerkleCap, proof *variables.FriProof, xIndex gl.Variable, n uint64, nLog uint64, roundProof *variables.FriQueryRound)
 //@   props C01 C12 C20 C05
-//@   circuit sound-only
+//@   circuit
+//@   flag honest-callees-assumed acceptance-asserts
+// completeness is stated for the supported configurations: arity 16 in every reduction step, and a proof of the shape
+// validateFriProofShape establishes (VerifyFriProof calls it first)
+//@   complete_requires shape_round(roundProof, instance, f.friParams) && len(initialMerkleCaps) == len(instance.Oracles) && forall(c, 0, len(initialMerkleCaps), len(initialMerkleCaps[c]) == 16)
+//@   complete_requires forall(i, 0, len(f.friParams.ReductionArityBits), f.friParams.ReductionArityBits[i] == 4) && arity_sum(f.friParams.ReductionArityBits, len(f.friParams.ReductionArityBits)) <= nLog - 4
+//@   complete_requires len(proof.CommitPhaseMerkleCaps) == len(f.friParams.ReductionArityBits) && forall(c, 0, len(proof.CommitPhaseMerkleCaps), len(proof.CommitPhaseMerkleCaps[c]) == 16)
+//@   complete_requires len(challenges.FriBetas) == len(f.friParams.ReductionArityBits) && len(precomputedReducedEval) == 2 && polys_in_range(instance, roundProof.InitialTreesProof) && !f.friParams.Hiding
 //@   calls fri.Chip.verifyInitialProof fri.Chip.calculateSubgroupX fri.Chip.friCombineInitial fri.Chip.finalPolyEval
 //@   loop 0 calls fri.Chip.computeEvaluation fri.Chip.verifyMerkleProofToCapWithCapIndex
 //@   requires chipok(f.gl) && params_ok(f.friParams) && nLog == f.friParams.DegreeBits + f.friParams.Config.RateBits
@@ -230,7 +239,8 @@ package fri
 //@   requires len(roundProof.Steps) == len(f.friParams.ReductionArityBits) && forall(i, 0, len(roundProof.Steps), len(roundProof.Steps[i].Evals) == pow2(f.friParams.ReductionArityBits[i]))
 //@   ghost idxBits []frontend.Variable = atentry(xIndexBits, 0)
 //@   ghost capBits []frontend.Variable = capIndexBits
-//@   ensures len(idxBits) == nLog && forall(k, 0, len(idxBits), idxBits[k] == ((xIndex.Limb % P) / pow2(k)) % 2)
+//@   sound_ensures len(idxBits) == nLog && forall(k, 0, len(idxBits), idxBits[k] == ((xIndex.Limb % P) / pow2(k)) % 2)
+//@   complete_ensures len(idxBits) == nLog
 //@   ensures len(capBits) == 4 && forall(k, 0, 4, capBits[k] == idxBits[nLog - 4 + k])
 //@   ensures initial_ok(roundProof.InitialTreesProof, idxBits, capBits, initialMerkleCaps)
 //@   ensures len(roundProof.Steps) >= len(f.friParams.ReductionArityBits) && forall(i, 0, len(f.friParams.ReductionArityBits), f.friParams.ReductionArityBits[i] == 4 && len(roundProof.Steps[i].Evals) == 16)
@@ -269,9 +279,19 @@ package fri
 
 //@ func (f *Chip) VerifyFriProof(instance InstanceInfo, openings Openings, friChallenges *variables.FriChallenges, initialMerkleCaps []variables.FriMerkleCap, friProof *variables.FriProof)
 //@   props C01 C14 C12 C20 C05
-//@   circuit sound-only
+//@   circuit
+//@   flag honest-callees-assumed
+//@   complete_requires f.friParams.Config.NumQueryRounds == len(friProof.QueryRoundProofs) && len(friChallenges.FriQueryIndices) == len(friProof.QueryRoundProofs) && f.friParams.Config.NumQueryRounds <= pow2(32)
+//@   complete_requires len(initialMerkleCaps) == len(instance.Oracles) && forall(c, 0, len(initialMerkleCaps), len(initialMerkleCaps[c]) == 16) && !f.friParams.Hiding
+//@   complete_requires forall(i, 0, len(f.friParams.ReductionArityBits), f.friParams.ReductionArityBits[i] == 4) && arity_sum(f.friParams.ReductionArityBits, len(f.friParams.ReductionArityBits)) <= f.friParams.DegreeBits + f.friParams.Config.RateBits - 4
+//@   complete_requires len(friProof.CommitPhaseMerkleCaps) == len(f.friParams.ReductionArityBits) && len(friChallenges.FriBetas) == len(f.friParams.ReductionArityBits) && len(openings.Batches) == 2
+//@   complete_requires forall(r, 0, len(friProof.QueryRoundProofs), pir(instance.Batches[0].Polynomials, friProof.QueryRoundProofs[r].InitialTreesProof))
+//@   complete_requires forall(r, 0, len(friProof.QueryRoundProofs), pir(instance.Batches[1].Polynomials, friProof.QueryRoundProofs[r].InitialTreesProof))
+//@   complete_requires aligned(f.gl, 64 - f.friParams.Config.ProofOfWorkBits)
 //@   requires chipok(f.gl) && params_ok(f.friParams) && oracles_small(instance)
-//@   requires canonQE(friChallenges.FriAlpha) && canonQEs(friChallenges.FriBetas) && canonOpeningBatches(openings) && fri_inputs_canon(friProof)
+//@   requires canonQE(friChallenges.FriAlpha) && canonQEs(friChallenges.FriBetas)
+//@   requires canonOpeningBatches(openings)
+//@   requires fri_inputs_canon(friProof)
 //@   requires len(instance.Batches) == 2 && forall(b, 0, len(instance.Batches), canonQE(instance.Batches[b].Point) && len(instance.Batches[b].Polynomials) <= pow2(41))
 //@   ensures[pow] friChallenges.FriPowResponse.Limb < pow2(64 - f.friParams.Config.ProofOfWorkBits)
 //@   ensures[shape] shape_fri(friProof, instance, f.friParams)
@@ -282,7 +302,7 @@ package fri
 
 // ------------------------------------------------------------------ FRI instance (plonky2 get_fri_instance): oracles and polynomial lists
 //@ def cd_small(c) = c.NumConstants <= pow2(32) && c.Config.NumRoutedWires <= pow2(32) && c.Config.NumWires <= pow2(32) && c.Config.NumChallenges <= pow2(16) && c.NumPartialProducts <= pow2(32) && c.QuotientDegreeFactor <= pow2(32) && c.DegreeBits <= 32
-//@ def polys_are(l, off, n, oracle) = forall(k, 0, n, l[off + k].OracleIndex == oracle && l[off + k].PolynomialInfo == k)
+//@ def polys_are(l, off, n, oracle) = forall(j, off, off + n, l[j].OracleIndex == oracle && l[j].PolynomialInfo == j - off)
 
 //@ func polynomialInfoFromRange(c *types.CommonCircuitData, oracleIdx uint64, startPolyIdx uint64, endPolyIdx uint64) (res []PolynomialInfo)
 //@   props C13 C20
@@ -315,11 +335,18 @@ package fri
 //@   ensures polys_are(res, c.NumConstants + c.Config.NumRoutedWires + c.Config.NumWires, c.Config.NumChallenges * (1 + c.NumPartialProducts), 2)
 //@   ensures polys_are(res, c.NumConstants + c.Config.NumRoutedWires + c.Config.NumWires + c.Config.NumChallenges * (1 + c.NumPartialProducts), c.Config.NumChallenges * c.QuotientDegreeFactor, 3)
 
+// the two oracle sizes that are products of configuration values, also as opaque symbols (so that facts about them
+// do not drag nonlinear arithmetic into every obligation that merely compares lengths)
+//@ opaque def zs_polys(nc, npp) = nc * (1 + npp)
+//@ opaque def quot_polys(nc, qdf) = nc * qdf
 //@ func (f *Chip) GetInstance(zeta gl.QuadraticExtensionVariable) (res InstanceInfo)
 //@   props C13 C20 C05
 //@   circuit
+//@   reveal zs_polys quot_polys
+//@   ensures res.Oracles[2].NumPolys == zs_polys(f.commonData.Config.NumChallenges, f.commonData.NumPartialProducts) && res.Oracles[3].NumPolys == quot_polys(f.commonData.Config.NumChallenges, f.commonData.QuotientDegreeFactor)
 //@   requires chipok(f.gl) && canonQE(zeta) && cd_small(f.commonData)
 //@   ensures len(res.Oracles) == 4 && len(res.Batches) == 2 && oracles_small(res) && canonQE(res.Batches[0].Point)
+//@   ensures forall(k, 0, len(res.Batches[0].Polynomials), res.Batches[0].Polynomials[k].OracleIndex < 4 && res.Batches[0].Polynomials[k].PolynomialInfo < res.Oracles[res.Batches[0].Polynomials[k].OracleIndex].NumPolys)
 //@   ensures res.Oracles[0].NumPolys == f.commonData.NumConstants + f.commonData.Config.NumRoutedWires && res.Oracles[1].NumPolys == f.commonData.Config.NumWires
 //@   ensures res.Oracles[2].NumPolys == f.commonData.Config.NumChallenges * (1 + f.commonData.NumPartialProducts) && res.Oracles[3].NumPolys == f.commonData.Config.NumChallenges * f.commonData.QuotientDegreeFactor
 //@   ensures !res.Oracles[0].Blinding && res.Oracles[1].Blinding && res.Oracles[2].Blinding && res.Oracles[3].Blinding
